@@ -226,7 +226,7 @@ RULES = [
 ]
 
 MANIFEST = {
-    "text": "Static decision: per-path effect table of all builder setters (one field each, argument stored via SmallString::from/Default, no reads, self returned) - hence override and commutation for every call sequence; build()'s rejection list is exactly the documented one; and the agreement simulation over the builder domain, including invariance of every guard evaluated on a field that emit-then-parse normalises (namespace, subpath) over the value classes {empty, only insignificant segments, significant}.",
+    "text": "Static decision: per-path effect table of all builder setters (one field each, argument stored via SmallString::from/Default, no reads, self returned) - hence override and commutation for every call sequence; build()'s rejection list is exactly the documented one; and the agreement simulation over the builder domain, including invariance of every guard evaluated on a field that emit-then-parse normalises (namespace, subpath) over the value classes {empty, only insignificant segments, significant}. The simulation's raw type token is justified by the computed type alphabet (no separator, nothing that needs escaping).",
     "note": "Trusted: rustc MIR, extractor, callee semantics (SmallString::from preserves the text; splitting/encoding as in C01). Interleavings are covered by the effect argument, not enumerated; direct edits of `parts` only via build()'s re-validation.",
     "technique": "effect (write-set) summaries per setter vs. reference table; rejection-list completeness; agreement simulation with acceptance invariance over abstract value classes",
     "design_ref": "DESIGN.md 5.9",
